@@ -360,6 +360,17 @@ class ModuleV:
         self.name = name
 
 
+class TypeOfV:
+    """type(v) where the dynamic type of v is not known statically (object reference that is not exact, Optional
+    scalar): only compared (`is` / `==`) against classes, which yields a term over class_of / the None test"""
+
+    def __init__(self, v):
+        self.v = v
+
+    def __repr__(self):
+        return f'type({self.v!r})'
+
+
 class Builtin:
     def __init__(self, name, selfv=None):
         self.name, self.selfv = name, selfv
